@@ -10,4 +10,7 @@ WORK=$(mktemp -d /dev/shm/verif.XXXXXX 2>/dev/null || mktemp -d /tmp/verif.XXXXX
 trap 'rm -rf "$WORK"' EXIT
 "$HERE/.bin/instrument" -repo "$VERIF_REPO" -shim "$HERE/shim" -out "$WORK" -modcache "$(go env GOMODCACHE)"
 go build -overlay "$WORK/overlay.json" -o "$WORK/verifmc" ./cmd/verifmc
+# warm the cache of the -race build used by the auxiliary pass of C07 and of the plain build of cmd/gofakes3 (C15)
+go build -race -overlay "$WORK/overlay.json" -o "$WORK/verifmc-race" ./cmd/verifmc
+(cd "$VERIF_REPO" && go build -o "$WORK/gofakes3-bin" ./cmd/gofakes3)
 echo setup ok
